@@ -59,6 +59,14 @@ def run(ck):
     from props import C07 as _C07, common as _cm
 
     _cm.import_results(ck, _C07, "2", "Generic", "2")
+    # (round 7) .. and the timer child: Box<T> / &mut T forward reregister to the wrapper's own implementation rather than
+    # to unregister-then-register (C01.6 wrappers), a re-registered timer retires its old arming (C01.7), and a replacement
+    # timer does not take the replaced timer's expiry for its own (C05.6)
+    import importlib as _il
+
+    _il.import_module("props.C01").token_factory_rules(ck, "2")
+    _cm.import_results(ck, _il.import_module("props.C01"), "6", None, "2")
+    _cm.import_results(ck, _il.import_module("props.C05"), "6", "Timer", "2")
 
 
 def coverage_extra(checks):
